@@ -102,6 +102,15 @@ def _replay(ctx, wd, cases):
 
 
 def run(ctx):
+    _run_main(ctx)
+    if not ctx.replay_path:
+        from checks import cfg_load
+        cov = cfg_load.run_growth(ctx)   # growth: configuration loading semantics (spec/ConfigLoad.tla)
+        if cov:
+            ctx.coverage["config_loading"] = cov
+
+
+def _run_main(ctx):
     ctx.level = "exploration"
     wd = recs.workdir("C19")
     cases = os.path.join(wd, "cases.ndjson")
